@@ -7,7 +7,7 @@
 EXTENDS YParser, YRenderScalar, TLC, Json, FiniteSets
 CONSTANTS N, Wide, Budget, MaxChD, CiMax       \* Budget: at most that many characters get a non-default presentation choice
 Sigma == IF Wide THEN {"a", " ", "\n", "'", "\"", "\\", ":", "#", "\t", "<u233>", "-", "<u128512>", ",", "[", "<u133>", "<u0>", "<u27>", "b",
-                          "<u7>", "<u8>", "<u11>", "<u12>", "\r", "/", "<u160>", "<u8232>", "<u8233>"}       \* with the others: every named escape of section 5.7
+                          "<u7>", "<u8>", "<u11>", "<u12>", "\r", "/", "<u160>", "<u8232>", "<u8233>", "<u288>", "<u19977>"}       \* with the others: every named escape of section 5.7
          ELSE {"a", " ", "\n", "'", "\"", "\\", ":", "#", "\t", "<u233>", "-"}
 VARIABLES t, phase, style, ctxn, ch, eb, ci, pad
 vars == <<t, phase, style, ctxn, ch, eb, ci, pad>>
